@@ -417,15 +417,15 @@ static void wrappers(uint64_t N, unsigned reps) {
 
 void run_C09(void) {
   const int th = G.thorough;
-  const uint64_t exh_max = th ? 16384 : 4096;
+  const uint64_t exh_max = th ? 32768 : 8192;
   for (uint64_t N = 1; N <= 65536; N <<= 1) {
     if (N <= exh_max)
-      exhaustive_kernels(N, N <= (th ? 2048 : 512));
+      exhaustive_kernels(N, N <= (th ? 4096 : 1024));
     else {
       sampled_kernels(N, th ? 4096 : 256, 0);
       if (th) exhaustive_inplace_auto(N);
     }
     special_classes(N);
-    if (N >= 2) wrappers(N, th ? (N <= 4096 ? 60 : 12) : (N <= 4096 ? 6 : 2));
+    if (N >= 2) wrappers(N, th ? (N <= 4096 ? 400 : 40) : (N <= 4096 ? 24 : 4));
   }
 }
